@@ -654,6 +654,13 @@ P["C07"]["units"].append(
                     "g_add_item_k": "g_add_item_k", "g_seq_k": "g_seq_k", "g_vj_elem": "g_vj_elem", "g_vj_elem_str": "g_vj_elem_str"}}]},
       loop_macro_headers=["contracts/spec.h"],
       expect=["contract_C07_jwks_process\\.postcondition\\.7", "jwks_process\\.loop_invariant_step", "contract_rec_jwk_process_one\\.precondition"], timeout=900))
+for _fn, _body, _c in (("__jwks_load_strn", "jwk_set_t *s; const char *j; size_t n; int e; __jwks_load_strn(s, j, n, e);", "contract_C07___jwks_load_strn"),
+                       ("jwks_load_fromfile", "jwk_set_t *s; const char *f; jwks_load_fromfile(s, f);", "contract_C07_jwks_load_fromfile"),
+                       ("jwks_load_fromfp", "jwk_set_t *s; FILE *f; jwks_load_fromfp(s, f);", "contract_C07_jwks_load_fromfp")):
+    P["C07"]["units"].append(U("C07.%s" % _fn, "%s -> jwks_new (libjwt/jwks.c)" % _fn, JWKS_C, "contracts/jwks_c.h", _body, "%s/%s" % (_fn, _c),
+        replace=["jwks_process/contract_rec_jwks_process"], assumed_contracts=["jwks_process/contract_rec_jwks_process"],
+        stubs=LIBC + ["stubs/alloc.c", "stubs/jansson.c"], defines=["VERIF_TU_JWKS", "VERIF_ALLOC_RECORD_FAIL"], flags=[],
+        expect=[_c + "\\.postcondition\\.5", "contract_rec_jwks_process\\.precondition"], timeout=600))
 _REC_DOERS = ["__getter/contract_rec___getter", "__setter/contract_rec___setter", "__deleter/contract_rec___deleter"]
 for _w in ("header_get", "header_set", "claim_get", "claim_set"):
     P["C15"]["units"].append(U("C15.jwt_%s" % _w, "jwt_%s -> __run_it (libjwt/jwt-setget.c)" % _w, SETGET_C, "contracts/jwt_setget_c.h",
